@@ -17,6 +17,8 @@ THEOREMS = [
     "C29_merge_is_shuffle",
     "C29_error_reraised",
     "C29_merge_error_loses_only_unprocessed",
+    "C29_merge_never_stuck",
+    "C29_error_countdown",
     "C29_sort_is_stable_sort",
     "C29_dsp_order",
     "C29_dsp_order_partial",
@@ -615,26 +617,30 @@ def monitor_dsp(case: dict, res: dict) -> list[Violation]:
     elif not any(exc is r for r in raised):
         return [Violation("C29/dsp_spurious_error" if not raised else "C29/dsp_wrong_error",
                           f"debounced_sorted_prefix raised {exc!r}; inner raised {raised!r}", case)]
-    # order: some arrival-prefix, stably sorted by key, then the rest in arrival order (a prefix of that if an error cut it short)
-    ok = False
-    shape_ok = False
-    for k in range(len(arrival) + 1):
-        want = _stable_sorted(arrival[:k]) + arrival[k:]
-        if (exc is None and len(out) == len(want) and _is_prefix(out, want)) or (exc is not None and _is_prefix(out, want)):
-            ok = True
-            break
-        if len(out) >= k and {x.uid for x in out[:k]} == {x.uid for x in arrival[:k]} and _is_prefix(out[k:], arrival[k:]):
-            shape_ok = True
-    if not ok:
-        # classify: was anything handed to the caller before the consumer loop saw the marker?
-        first_o = next((j for j, ev in enumerate(log) if ev[0] == "O"), None)
-        mk = next((j for j, ev in enumerate(log) if ev[0] == "G" and isinstance(ev[1], str)), None)
-        if first_o is not None and (mk is None or first_o < mk):
-            return [Violation("C29/dsp_later_before_burst",
-                              f"arrival {arrival}, output {out}: {out[0]} was yielded before the buffered burst was flushed", case)]
-        if shape_ok:
-            return [Violation("C29/dsp_burst_not_sorted", f"arrival {arrival}, output {out}: the burst is not in stable key order", case)]
-        return [Violation("C29/dsp_order", f"arrival {arrival}, output {out}: not (sorted arrival-prefix) ++ (rest in arrival order)", case)]
+    # order.  The burst is what reached the consumer loop before it saw the marker (observed on the
+    # real merged stream); the output must be: nothing before that point, then the burst in key order,
+    # then every later item in arrival order.
+    stream = [ev[1] for ev in log if ev[0] == "G"]
+    mk = next((j for j, x in enumerate(stream) if isinstance(x, str)), None)
+    consumed = [x for x in stream if isinstance(x, Item)]
+    if not _is_prefix(consumed, arrival):
+        return [Violation("C29/dsp_stream_mismatch", f"consumer loop received {consumed}, inner produced {arrival}", case)]
+    first_o = next((j for j, ev in enumerate(log) if ev[0] == "O"), None)
+    mk_ev = next((j for j, ev in enumerate(log) if ev[0] == "G" and isinstance(ev[1], str)), None)
+    if first_o is not None and (mk_ev is None or first_o < mk_ev):
+        return [Violation("C29/dsp_later_before_burst",
+                          f"arrival {arrival}, output {out}: {out[0]} was yielded before the buffered burst was flushed", case)]
+    if mk is None:
+        return []  # never flushed (error first): nothing was yielded, checked above
+    k = mk
+    head, tail = out[:k], out[k:]
+    later = consumed[k:]
+    if {x.uid for x in head} != {x.uid for x in consumed[:k]} or len(head) != k:
+        return [Violation("C29/dsp_order", f"burst {consumed[:k]}, output {out}: the first {k} outputs are not the burst", case)]
+    if not all(a.key <= b.key for a, b in zip(head, head[1:])):
+        return [Violation("C29/dsp_burst_not_sorted", f"burst {consumed[:k]} was yielded as {head}: not in key order", case)]
+    if not (_is_prefix(tail, later) and (exc is not None or len(tail) == len(later))):
+        return [Violation("C29/dsp_later_not_in_arrival_order", f"items after the burst arrived as {later}, were yielded as {tail}", case)]
     return []
 
 
